@@ -328,6 +328,8 @@ pub async fn run(seed: u64, sched: Rc<Sched>, keep_log: bool) -> (CaseResult, Ve
     let mut arng = kit::stream(seed, "store-actions");
     let mut end = DriveEnd::Done;
     let mut rounds = 0u64;
+    // (manager instance, lowest and highest end of queued() it has reported)
+    let mut high_water: Option<(usize, u64, u64)> = None;
     loop {
         // A bounded burst of steps, then external actions.
         let handles_done = handles.iter().all(|h| h.is_finished());
@@ -354,10 +356,22 @@ pub async fn run(seed: u64, sched: Rc<Sched>, keep_log: bool) -> (CaseResult, Ve
             break;
         }
         // (3) structural invariant of the live block store.
-        if let Some((_, mgr)) = slot.lock().unwrap().clone() {
+        if let Some((inc, mgr)) = slot.lock().unwrap().clone() {
             let (q, p) = (mgr.queued(), mgr.persisted());
             if p.next() > q.next() || q.first < p.first {
                 hist.violation("C08", "store_ranges_inconsistent", format!("queued = [{}, {}), persisted = [{}, {})", q.first.0, q.next().0, p.first.0, p.next().0));
+            }
+            // What one instance of the store has reported as available stays available (until
+            // pruned): neither end of `queued()` ever moves backwards.
+            let id = inc as usize;
+            match high_water {
+                Some((i, f, n)) if i == id => {
+                    if q.next().0 < n || q.first.0 < f {
+                        hist.violation("C08", "queued_range_went_backwards", format!("queued() was [{f}, {n}), now it is [{}, {}) (persisted = [{}, {}))", q.first.0, q.next().0, p.first.0, p.next().0));
+                    }
+                    high_water = Some((id, q.first.0.max(f), q.next().0.max(n)));
+                }
+                _ => high_water = Some((id, q.first.0, q.next().0)),
             }
         }
         if let Some(k) = restarting {
